@@ -25,6 +25,8 @@
 import SF.Gotype.Unfold
 import SF.Proofs.FuIdTop
 import SF.Proofs.FuIdStructTop
+import SF.Proofs.FuIdStruct2Top
+import SF.Proofs.FuCborTop
 namespace SF.Props.C11
 open SF SF.Unf
 
@@ -281,3 +283,260 @@ example : Vals dsInner [.int (-9223372036854775808), .str [104, 105]] ∧
   ⟨.cons (by decide +kernel) (.cons (by decide +kernel) .nil), rfl⟩
 
 end SF.PropsFuStruct.C11
+
+
+/-! ## C11, composed statement for structs with OMITEMPTY members, NESTED and INLINED structs (direct path),
+and the Unfold-side hypotheses derived from the compiler for flat structs
+
+Proof files SF/Proofs/FuIdStruct2*.lean.  `fold_unfold_struct_omit_total` / `fold_unfold_Om_total` carry NO
+hypothesis about the Unfold side any more (`compile_struct_prim`: the translated type compiles to the expected
+field table) — under `TrimAgree`: the tag contains no \v / \f, on which the Unfold mirror's `trimSpace`
+(`String.trimAscii`) differs from Go's `strings.TrimSpace` (a recorded inexactness of the MIRROR, DESIGN §0.6).
+Nested trees keep `hcomp` / `huok` as hypotheses about TYPES, `#guard`-checked for the instance. -/
+namespace SF.PropsFuStruct2.C11
+open SF SF.Gotype SF.Gotype.Fold SF.FoldProofs SF.FuId SF.Props.FuId
+open SF.Unf (Ctx newUnfolder setTarget typeFuel)
+open SF.Ops.Unf (xevToUEvs)
+open SF.Ops.Fu (feed agreeF)
+open SF.UnfProofs.StructVal (FM Shaped fieldOK_prim fieldOK_struct)
+open SF.Unf.Spec (specFields)
+open SF.FoldProofs.Examples
+
+/-- STAGE 5b — structs with fields of primitive kind: dropped fields, plain members and OMITEMPTY members,
+every value. -/
+theorem fold_unfold_struct_omit (o : FoldOpts) (hfail : o.failAt = none) (S : GoType) (fs : List Field)
+    (ds : List FD2) (vs : List GoVal)
+    (hg : goodT [] S = true) (hu : S.under = .struct fs) (hd : Desc2 fs ds) (hv : Vals2 ds vs)
+    (ut : Unf.GoType) (nm : String) (ufs : List (String × String × Unf.GoType)) (fields : Unf.Fields) (R : Unf.Reg)
+    (htr : Unf.Tr.trType S = some ut) (hS : ut.un Unf.Tr.fuTable = .struct nm ufs)
+    (hcomp : Unf.lookupReflUnfolder Unf.Tr.fuTable typeFuel [] newUnfolder.reg ut = .ok (.struct fields, R))
+    (hFM : FM Unf.Tr.fuTable ut fields (sfOf2 ds 0))
+    (hnd : ((sfOf2 ds 0).map (·.1)).Nodup)
+    (hz : Unf.zero Unf.Tr.fuTable ut = .struct (zerosOf2 ds))
+    (hv0 : Shaped Unf.Tr.fuTable ut (Unf.zero Unf.Tr.fuTable ut)) :
+    ∃ c0 c1,
+      Unf.Tr.trType S = some ut ∧
+      setTarget Unf.Tr.fuTable ut (Unf.zero Unf.Tr.fuTable ut) newUnfolder = .ok c0 ∧
+      (impl o S (.struct vs)).res = .ok ∧
+      feed c0 ((impl o S (.struct vs)).evs.map xevToUEvs) = (c1, none) ∧
+      c1.target = .struct (trFields2 ds vs) ∧
+      c1 = { newUnfolder with target := c1.target, env := Unf.Tr.fuTable, reg := R, cells := c1.cells,
+                              keyCache := c1.keyCache } ∧
+      c1.depths = [0, 0, 0, 0, 0, 0] ∧
+      ((∀ d v, (d, v) ∈ ds.zip vs → trField2 d v = trFieldX2 d v) →
+        agreeF "direct" 1000 S (.struct vs) (back c1.target) = true) :=
+  SF.Props.FuId.fold_unfold_struct_omit o hfail S fs ds vs hg hu hd hv ut nm ufs fields R htr hS hcomp hFM hnd hz hv0
+
+/-- the events Fold delivers: the empty `omitempty` string member is MISSING from the object (this is what
+distinguishes the statement from `fold_unfold_struct_prim`) -/
+theorem fold_struct_omit_events (o : FoldOpts) (hfail : o.failAt = none) (S : GoType) (fs : List Field)
+    (ds : List FD2) (vs : List GoVal)
+    (hg : goodT [] S = true) (hu : S.under = .struct fs) (hd : Desc2 fs ds) (hv : Vals2 ds vs) :
+    (impl o S (.struct vs)).evs =
+      .ev (.objStart (structFoldLen fs (foldersOf2 ds 0).length) BT.any) :: memEvs2 ds vs ++ [.ev .objEnd] :=
+  SF.Props.FuId.fold_struct_omit_events o hfail S fs ds vs hg hu hd hv
+
+/-- STAGE 5c — NESTED structs: plain struct-typed members and inlined structs to any depth (≤ 498), scalar leaves
+dropped / plain / omitempty, every value. -/
+theorem fold_unfold_struct_nested (o : FoldOpts) (hfail : o.failAt = none) (S : GoType) (fs : List Field)
+    (ds : List FT) (vs : List GoVal)
+    (hg : goodT [] S = true) (hu : S.under = .struct fs) (hd : descL fs ds) (hv : valsL ds vs = true)
+    (hdep : tdepth S ≤ 498)
+    (ut : Unf.GoType) (nm : String) (ufs : List (String × String × Unf.GoType)) (fields : Unf.Fields) (R : Unf.Reg)
+    (htr : Unf.Tr.trType S = some ut) (hS : ut.un Unf.Tr.fuTable = .struct nm ufs)
+    (hcomp : Unf.lookupReflUnfolder Unf.Tr.fuTable typeFuel [] newUnfolder.reg ut = .ok (.struct fields, R))
+    (hFM : FM Unf.Tr.fuTable ut fields (sfL ds 0 []))
+    (hnd : ((sfL ds 0 []).map (·.1)).Nodup)
+    (huok : uokL Unf.Tr.fuTable ds)
+    (hz : Unf.zero Unf.Tr.fuTable ut = .struct (zerosL ds))
+    (hv0 : Shaped Unf.Tr.fuTable ut (Unf.zero Unf.Tr.fuTable ut)) :
+    ∃ c0 c1,
+      Unf.Tr.trType S = some ut ∧
+      setTarget Unf.Tr.fuTable ut (Unf.zero Unf.Tr.fuTable ut) newUnfolder = .ok c0 ∧
+      (impl o S (.struct vs)).res = .ok ∧
+      feed c0 ((impl o S (.struct vs)).evs.map xevToUEvs) = (c1, none) ∧
+      c1.target = .struct (trL ds vs) ∧
+      c1 = { newUnfolder with target := c1.target, env := Unf.Tr.fuTable, reg := R, cells := c1.cells,
+                              keyCache := c1.keyCache } ∧
+      c1.depths = [0, 0, 0, 0, 0, 0] ∧
+      (qL ds vs → agreeF "direct" 1000 S (.struct vs) (back c1.target) = true) :=
+  SF.Props.FuId.fold_unfold_struct_nested o hfail S fs ds vs hg hu hd hv hdep ut nm ufs fields R htr hS hcomp hFM hnd huok hz hv0
+
+/-- the events Fold delivers for a nested struct, exactly: a struct-typed member is `key { … }`, an inlined struct
+contributes its members only, an empty omitempty string member is missing -/
+theorem fold_struct_nested_events (o : FoldOpts) (hfail : o.failAt = none) (S : GoType) (fs : List Field)
+    (ds : List FT) (vs : List GoVal)
+    (hg : goodT [] S = true) (hu : S.under = .struct fs) (hd : descL fs ds) (hv : valsL ds vs = true)
+    (hdep : tdepth S ≤ 498) :
+    (impl o S (.struct vs)).evs =
+      .ev (.objStart (structFoldLen fs (foldersL ds 0).length) BT.any) :: memEvsL ds vs ++ [.ev .objEnd] :=
+  SF.Props.FuId.fold_struct_nested_events o hfail S fs ds vs hg hu hd hv hdep
+
+/-- the side condition of (f) holds for EVERY value when no member is of type float32 -/
+theorem qL_noF32 (ds : List FT) (vs : List GoVal) (h : noF32L ds = true) : qL ds vs :=
+  SF.Props.FuId.qL_noF32 ds vs h
+
+theorem compile_struct_prim (fs : List Field) (ds : List FD2) (hd : Desc2 fs ds)
+    (htag : ∀ f ∈ fs, TrimAgree f.tag) (hl : fs.length ≤ 250) (hnd : ((sfOf2 ds 0).map (·.1)).Nodup) :
+    Unf.Tr.trType (.struct fs) = some (.struct "" (ufsOf fs ds)) ∧
+    Unf.lookupReflUnfolder Unf.Tr.fuTable typeFuel [] newUnfolder.reg (.struct "" (ufsOf fs ds)) =
+      .ok (.struct (tableOf ds 0), []) ∧
+    FM Unf.Tr.fuTable (.struct "" (ufsOf fs ds)) (tableOf ds 0) (sfOf2 ds 0) ∧
+    Unf.zero Unf.Tr.fuTable (.struct "" (ufsOf fs ds)) = .struct (zerosOf2 ds) ∧
+    Shaped Unf.Tr.fuTable (.struct "" (ufsOf fs ds)) (Unf.zero Unf.Tr.fuTable (.struct "" (ufsOf fs ds))) :=
+  SF.Props.FuId.compile_struct_prim fs ds hd htag hl hnd
+
+/-- the same for a NAMED struct type `type n struct{…}`: the registry gets the entry `n` -/
+theorem compile_struct_prim_named (n : String) (m : Methods) (hne : n.isEmpty = false) (fs : List Field) (ds : List FD2)
+    (hd : Desc2 fs ds) (htag : ∀ f ∈ fs, TrimAgree f.tag) (hl : fs.length ≤ 250)
+    (hnd : ((sfOf2 ds 0).map (·.1)).Nodup) :
+    Unf.Tr.trType (.named n m (.struct fs)) = some (.struct n (ufsOf fs ds)) ∧
+    Unf.lookupReflUnfolder Unf.Tr.fuTable typeFuel [] newUnfolder.reg (.struct n (ufsOf fs ds)) =
+      .ok (.struct (tableOf ds 0), [(n, .struct (tableOf ds 0))]) ∧
+    FM Unf.Tr.fuTable (.struct n (ufsOf fs ds)) (tableOf ds 0) (sfOf2 ds 0) ∧
+    Unf.zero Unf.Tr.fuTable (.struct n (ufsOf fs ds)) = .struct (zerosOf2 ds) ∧
+    Shaped Unf.Tr.fuTable (.struct n (ufsOf fs ds)) (Unf.zero Unf.Tr.fuTable (.struct n (ufsOf fs ds))) :=
+  SF.Props.FuId.compile_struct_prim_named n m hne fs ds hd htag hl hnd
+
+/-- C11, direct path, structs with dropped / plain / omitempty fields of scalar type — NO hypothesis about the
+Unfold side left: every struct type `S` (named or not) of the fold universe with these fields, tags trimmed alike
+by the two mirrors, at most 250 fields, distinct member names; every value. -/
+theorem fold_unfold_struct_omit_total (o : FoldOpts) (hfail : o.failAt = none) (S : GoType) (fs : List Field)
+    (ds : List FD2) (vs : List GoVal)
+    (hS : S = .struct fs ∨ ∃ n m, S = .named n m (.struct fs) ∧ n.isEmpty = false ∧ goodT [] S = true)
+    (hd : Desc2 fs ds) (hv : Vals2 ds vs)
+    (htag : ∀ f ∈ fs, TrimAgree f.tag) (hl : fs.length ≤ 250) (hnd : ((sfOf2 ds 0).map (·.1)).Nodup) :
+    ∃ ut c0 c1,
+      Unf.Tr.trType S = some ut ∧
+      setTarget Unf.Tr.fuTable ut (Unf.zero Unf.Tr.fuTable ut) newUnfolder = .ok c0 ∧
+      (impl o S (.struct vs)).res = .ok ∧
+      feed c0 ((impl o S (.struct vs)).evs.map xevToUEvs) = (c1, none) ∧
+      c1.target = .struct (trFields2 ds vs) ∧ c1.depths = [0, 0, 0, 0, 0, 0] ∧
+      ((∀ d v, (d, v) ∈ ds.zip vs → trField2 d v = trFieldX2 d v) →
+        agreeF "direct" 1000 S (.struct vs) (back c1.target) = true) :=
+  SF.Props.FuId.fold_unfold_struct_omit_total o hfail S fs ds vs hS hd hv htag hl hnd
+
+theorem fold_unfold_Om_total (o : FoldOpts) (hfail : o.failAt = none) (vs : List GoVal) (hv : Vals2 dsOm vs) :
+    ∃ c0 c1,
+      Unf.Tr.trType tOm = some utOm ∧
+      setTarget Unf.Tr.fuTable utOm (Unf.zero Unf.Tr.fuTable utOm) newUnfolder = .ok c0 ∧
+      (impl o tOm (.struct vs)).res = .ok ∧
+      (impl o tOm (.struct vs)).evs = .ev (.objStart (-1) BT.any) :: memEvs2 dsOm vs ++ [.ev .objEnd] ∧
+      feed c0 ((impl o tOm (.struct vs)).evs.map xevToUEvs) = (c1, none) ∧
+      c1.target = .struct (trFields2 dsOm vs) ∧ c1.depths = [0, 0, 0, 0, 0, 0] ∧
+      agreeF "direct" 1000 tOm (.struct vs) (back c1.target) = true :=
+  SF.Props.FuId.fold_unfold_Om_total o hfail vs hv
+
+/-- the nested instance, EVERY value: only `hcomp` (the compiled table) and `SpecNest` are assumed (both
+`#guard`-checked below: the kernel cannot evaluate `String.trimAscii`). -/
+theorem fold_unfold_Nest (o : FoldOpts) (hfail : o.failAt = none) (vs : List GoVal) (hv : valsL dsNest vs = true)
+    (R : Unf.Reg) (hspec : SpecNest)
+    (hcomp : Unf.lookupReflUnfolder Unf.Tr.fuTable typeFuel [] newUnfolder.reg utNest = .ok (.struct fieldsNest, R)) :
+    ∃ c0 c1,
+      Unf.Tr.trType tNest = some utNest ∧
+      setTarget Unf.Tr.fuTable utNest (Unf.zero Unf.Tr.fuTable utNest) newUnfolder = .ok c0 ∧
+      (impl o tNest (.struct vs)).res = .ok ∧
+      feed c0 ((impl o tNest (.struct vs)).evs.map xevToUEvs) = (c1, none) ∧
+      c1.target = .struct (trL dsNest vs) ∧ c1.depths = [0, 0, 0, 0, 0, 0] ∧
+      agreeF "direct" 1000 tNest (.struct vs) (back c1.target) = true :=
+  SF.Props.FuId.fold_unfold_Nest o hfail vs hv R hspec hcomp
+
+end SF.PropsFuStruct2.C11
+
+
+/-! ## C11 through the CBOR path: Fold → CBOR encoder → bytes → CBOR parser → Unfolder (scalars, `[]T`,
+`map[string]T`), every value; side condition = C01's `small` (strings / containers below 2^63 bytes / elements:
+the parser refuses longer announced lengths, `huge_length_refused`).  Proof files SF/Proofs/FuCbor*.lean. -/
+namespace SF.PropsFuCbor.C11
+open SF SF.Gotype SF.Gotype.Fold SF.FoldProofs SF.FuId SF.FuCbor SF.Props.FuCbor
+open SF.Cbor
+open SF.Unf (Ctx newUnfolder setTarget)
+open SF.Ops.Unf (evToUEv)
+open SF.Ops.Fu (feed agreeF)
+
+/-- STAGE 1 — scalars (`primTy p`: bool, string, int8 … int64, int, uint8 … uint64, uint, float32,
+float64), every value `v` of the type. -/
+theorem fold_cbor_unfold_scalar (o : FoldOpts) (hfail : o.failAt = none) (p : Prim) (v : GoVal)
+    (hv : hasPrim p v = true) (hz : sizedV v = true) :
+    ∃ ut c0 c1 s pr,
+      Unf.Tr.trType (primTy p) = some ut ∧
+      setTarget Unf.Tr.fuTable ut (Unf.zero Unf.Tr.fuTable ut) newUnfolder = .ok c0 ∧
+      (impl o (primTy p) v).res = .ok ∧
+      Enc.run {} (impl o (primTy p) v).evs = (s, none) ∧ s.w.out ≠ [] ∧
+      Parse.writeChunks {} [s.w.out] = (pr, none) ∧ pr = Parse.idle pr.evs ∧
+      SF.Ops.Cbor.parseEvents [s.w.out] = (Parse.events pr, "ok") ∧
+      Parse.events pr = [scEv (cborSc (scOfTop p v))] ∧
+      feed c0 ((Parse.events pr).map fun e => [evToUEv e]) = (c1, none) ∧
+      c1.target = trPrim p v ∧
+      c1 = { newUnfolder with target := trPrim p v, env := Unf.Tr.fuTable } ∧
+      back c1.target = v ∧
+      agreeF "cbor" 1000 (primTy p) v (back c1.target) = true ∧
+      (∀ path, (path == "json") = false → agreeF path 1000 (primTy p) v (back c1.target) = true) :=
+  SF.Props.FuCbor.fold_cbor_unfold_scalar o hfail p v hv hz
+
+/-- STAGE 2a — `[]T`, `T` scalar: nil, empty, or any elements `xs`.  Fold's ONE typed-array event is
+written as a definite-length array (`[]uint8` / `[]byte`, which Fold hands to `OnBytes`, as a byte
+string); the parser reports `OnArrayStart(n, any)` (byte string: `OnArrayStart(n, byte)`), the
+elements, `OnArrayFinished`; nil and empty both come back as nil (`sliceFin`). -/
+theorem fold_cbor_unfold_slice (o : FoldOpts) (hfail : o.failAt = none) (p : Prim) (v : GoVal) (xs : List GoVal)
+    (hv : sliceElems? v = some xs) (hxs : ∀ x ∈ xs, hasPrim p x = true)
+    (hz : ∀ x ∈ xs, sizedV x = true) (hn : xs.length < 9223372036854775808) :
+    ∃ ut c0 c1 s pr,
+      Unf.Tr.trType (.slice (primTy p)) = some ut ∧
+      setTarget Unf.Tr.fuTable ut (Unf.zero Unf.Tr.fuTable ut) newUnfolder = .ok c0 ∧
+      (impl o (.slice (primTy p)) v).res = .ok ∧
+      Enc.run {} (impl o (.slice (primTy p)) v).evs = (s, none) ∧ s.w.out ≠ [] ∧
+      Parse.writeChunks {} [s.w.out] = (pr, none) ∧ pr = Parse.idle pr.evs ∧
+      SF.Ops.Cbor.parseEvents [s.w.out] = (Parse.events pr, "ok") ∧
+      Parse.events pr = .arrStart xs.length (if isByteP p then BT.byte else BT.any) ::
+        (xs.map (cborElem p)).map scEv ++ [.arrEnd] ∧
+      feed c0 ((Parse.events pr).map fun e => [evToUEv e]) = (c1, none) ∧
+      c1.target = (if xs.isEmpty then .sliceNil (uPrimTy p) else .slice (uPrimTy p) (xs.map (trPrim p)) []) ∧
+      c1 = { newUnfolder with target := c1.target, env := Unf.Tr.fuTable } ∧
+      back c1.target = (if xs.isEmpty then .nilSlice else .slice xs) ∧
+      agreeF "cbor" 1000 (.slice (primTy p)) v (back c1.target) = true ∧
+      (∀ path, (path == "json") = false → agreeF path 1000 (.slice (primTy p)) v (back c1.target) = true) :=
+  SF.Props.FuCbor.fold_cbor_unfold_slice o hfail p v xs hv hxs hz hn
+
+/-- STAGE 2b — `map[string]T`, `T` scalar: nil, empty, or any entries `ms` with pairwise distinct
+string keys, under EVERY iteration order the order oracle dictates (`hintOK`).  Fold's ONE typed-map
+event reaches the encoder through map.go's expansion and is written as a definite-length map; the
+parser reports `OnObjectStart(n, any)`, key / value for `mems` — a permutation of the entries, values
+under the narrowest kind —, `OnObjectFinished`; the target holds exactly the translated entries
+(`fin`, a permutation), nil and empty both come back as nil (`mapSt`). -/
+theorem fold_cbor_unfold_map (o : FoldOpts) (hfail : o.failAt = none) (hord : hintOK o.order) (p : Prim) (v : GoVal)
+    (ms : List (GoVal × GoVal)) (hv : mapEntries? v = some ms) (hms : ∀ m ∈ ms, hasEntry p m = true)
+    (hnd : (ms.map fun m => getS m.1).Nodup)
+    (hz : ∀ m ∈ ms, sizedV m.1 = true ∧ sizedV m.2 = true) (hn : ms.length < 9223372036854775808) :
+    ∃ ut c0 c1 fin s pr mems,
+      Unf.Tr.trType (.map .string (primTy p)) = some ut ∧
+      setTarget Unf.Tr.fuTable ut (Unf.zero Unf.Tr.fuTable ut) newUnfolder = .ok c0 ∧
+      (impl o (.map .string (primTy p)) v).res = .ok ∧
+      Enc.run {} (impl o (.map .string (primTy p)) v).evs = (s, none) ∧ s.w.out ≠ [] ∧
+      Parse.writeChunks {} [s.w.out] = (pr, none) ∧ pr = Parse.idle pr.evs ∧
+      SF.Ops.Cbor.parseEvents [s.w.out] = (Parse.events pr, "ok") ∧
+      mems.Perm (ms.map fun m => (getS m.1, cborSc (scOfElem false p m.2))) ∧
+      Parse.events pr = .objStart ms.length BT.any :: memEvs mems ++ [.objEnd] ∧
+      feed c0 ((Parse.events pr).map fun e => [evToUEv e]) = (c1, none) ∧
+      fin.Perm (ms.map fun m => (getS m.1, trPrim p m.2)) ∧
+      c1.target = (if fin.isEmpty then .mapNil (uPrimTy p) else .map (uPrimTy p) fin) ∧
+      c1 = { newUnfolder with target := c1.target, env := Unf.Tr.fuTable } ∧
+      agreeF "cbor" 1000 (.map .string (primTy p)) v (back c1.target) = true ∧
+      (∀ path, (path == "json") = false → agreeF path 1000 (.map .string (primTy p)) v (back c1.target) = true) :=
+  SF.Props.FuCbor.fold_cbor_unfold_map o hfail hord p v ms hv hms hnd hz hn
+
+/-- why the size hypotheses cannot be dropped: the head of a text string announcing 2^63 bytes
+(what the encoder writes for such a string: `0x7b` + the 8-byte length) is refused by the parser
+with `lenRange`, whatever follows -/
+theorem huge_length_refused :
+    Enc.head majorText 9223372036854775808 = [0x7b, 0x80, 0, 0, 0, 0, 0, 0, 0] ∧
+    (Parse.write {} [0x7b, 0x80, 0, 0, 0, 0, 0, 0, 0]).2 = some .lenRange :=
+  SF.Props.FuCbor.huge_length_refused 
+
+/-- non-vacuity: MaxUint64, MinInt64 and a signalling-NaN float32 through the whole pipe (kernel-evaluated) -/
+example :
+    (match SF.Props.FuCbor.pipe {} (.int .u64) (.int 18446744073709551615) with | some (.int .u64 18446744073709551615) => true | _ => false) = true ∧
+    (match SF.Props.FuCbor.pipe {} (.int .i64) (.int (-9223372036854775808)) with | some (.int .i64 (-9223372036854775808)) => true | _ => false) = true := by
+  decide +kernel
+
+end SF.PropsFuCbor.C11
